@@ -130,7 +130,9 @@ def build_harness(binname, profile="release"):
             shutil.copy(lock_src, lock_dst)
         cmd = ["cargo", "build", "--offline", "--bin", binname]
         cmd += ["--release"] if profile == "release" else ["--profile", profile]
-        env = {"RUSTFLAGS": "--cfg %s -Awarnings" % GUARD}
+        # the target dir is given explicitly so that a copy of /verif elsewhere (vp run snapshots, VERIF_REPO
+        # mode) never builds into, or looks for binaries in, another tree's build directory
+        env = {"RUSTFLAGS": "--cfg %s -Awarnings" % GUARD, "CARGO_TARGET_DIR": TARGET}
         t = time.time()
         rc, out = sh(cmd, cwd=HARNESS, env=env, timeout=3000)
         if rc != 0 and "Cargo.lock" in out:
